@@ -81,7 +81,16 @@ def child(pid, tier, seed, replay):
             if replay:
                 mod.replay(ctx, json.load(open(replay)))
             else:
-                mod.run(ctx)
+                # the thorough tier repeats the (cheap) randomised modules with further sub-seeds
+                rounds = getattr(mod, 'THOROUGH_ROUNDS', 1) if tier == 'thorough' else 1
+                for rnd in range(rounds):
+                    ctx.seed = seed + 7919 * rnd
+                    mod.run(ctx)
+                    if ctx.failures or ctx.disagreements:
+                        break
+                ctx.seed = seed
+                if rounds > 1:
+                    ctx.notes.append('thorough tier: %d rounds with sub-seeds seed + 7919*k' % rounds)
         except Exception:
             tb = traceback.format_exc()
             broken.append('harness exception: ' + tb[-3000:])
